@@ -7,6 +7,15 @@ import Mps.SrcPins.SrcDoernerKeygen
 namespace Mps.Src.SrcDoernerKeygen
 set_option maxRecDepth 65536
 
+theorem gen_f_keygen : MpsGen.SrcDoernerKeygen.f_keygen = Mps.SrcPins.SrcDoernerKeygen.f_keygen := by decide
+theorem gen_f_round1R : MpsGen.SrcDoernerKeygen.f_round1R = Mps.SrcPins.SrcDoernerKeygen.f_round1R := by decide
+theorem gen_f_round1S : MpsGen.SrcDoernerKeygen.f_round1S = Mps.SrcPins.SrcDoernerKeygen.f_round1S := by decide
+theorem gen_f_round2R : MpsGen.SrcDoernerKeygen.f_round2R = Mps.SrcPins.SrcDoernerKeygen.f_round2R := by decide
+theorem gen_f_round2S : MpsGen.SrcDoernerKeygen.f_round2S = Mps.SrcPins.SrcDoernerKeygen.f_round2S := by decide
+theorem gen_f_round3R : MpsGen.SrcDoernerKeygen.f_round3R = Mps.SrcPins.SrcDoernerKeygen.f_round3R := by decide
+theorem gen_f_round3S : MpsGen.SrcDoernerKeygen.f_round3S = Mps.SrcPins.SrcDoernerKeygen.f_round3S := by decide
+theorem gen_files : MpsGen.SrcDoernerKeygen.files = Mps.SrcPins.SrcDoernerKeygen.files := by decide
+
 theorem gen_source :
     MpsGen.SrcDoernerKeygen.f_keygen = Mps.SrcPins.SrcDoernerKeygen.f_keygen ∧
     MpsGen.SrcDoernerKeygen.f_round1R = Mps.SrcPins.SrcDoernerKeygen.f_round1R ∧
@@ -15,7 +24,7 @@ theorem gen_source :
     MpsGen.SrcDoernerKeygen.f_round2S = Mps.SrcPins.SrcDoernerKeygen.f_round2S ∧
     MpsGen.SrcDoernerKeygen.f_round3R = Mps.SrcPins.SrcDoernerKeygen.f_round3R ∧
     MpsGen.SrcDoernerKeygen.f_round3S = Mps.SrcPins.SrcDoernerKeygen.f_round3S ∧
-    MpsGen.SrcDoernerKeygen.files = Mps.SrcPins.SrcDoernerKeygen.files := by
-  refine ⟨by decide, by decide, by decide, by decide, by decide, by decide, by decide, by decide⟩
+    MpsGen.SrcDoernerKeygen.files = Mps.SrcPins.SrcDoernerKeygen.files :=
+  ⟨gen_f_keygen, gen_f_round1R, gen_f_round1S, gen_f_round2R, gen_f_round2S, gen_f_round3R, gen_f_round3S, gen_files⟩
 
 end Mps.Src.SrcDoernerKeygen
